@@ -3,9 +3,11 @@
 import json, os, shutil, sys
 HERE = os.path.dirname(os.path.dirname(os.path.abspath(__file__)))
 prop = sys.argv[1]
+ROOT = os.environ.get("SEED_ROOT", "/tmp/seed")
+OFFSET = int(os.environ.get("SEED_OFFSET", "0"))
 ks = sys.argv[2:] or ["1", "2", "3"]
 for k in ks:
-    src = f"/tmp/seed/{prop}/seed_out/{k}"
+    src = f"{ROOT}/{prop}/seed_out/{k}"
     vf = os.path.join(src, "verify.json")
     if not os.path.exists(vf):
         print(prop, k, "not verified yet"); continue
@@ -13,17 +15,17 @@ for k in ks:
     ok = v.get("apply") and v["demo_clean_rc"] == 0 and v["demo_patched_rc"] != 0 and v["tests_rc"] == 0
     if not ok:
         print(prop, k, "REJECTED", v); continue
-    dst = os.path.join(HERE, "seeded", f"{prop}-{k}")
+    dst = os.path.join(HERE, "seeded", f"{prop}-{int(k) + OFFSET}")
     os.makedirs(dst, exist_ok=True)
     for f in ("patch.diff", "demo.py"):
         shutil.copy(os.path.join(src, f), os.path.join(dst, f))
     meta = json.load(open(os.path.join(src, "meta.json")))
     meta["property"] = prop
     import subprocess
-    rev = subprocess.run(["git", "-C", f"/tmp/seed/{prop}", "rev-parse", "--short", "HEAD"], capture_output=True, text=True).stdout.strip()
+    rev = subprocess.run(["git", "-C", f"{ROOT}/{prop}", "rev-parse", "--short", "HEAD"], capture_output=True, text=True).stdout.strip()
     meta["base_commit"] = rev
     meta["confirmed_by_me"] = {
-        "worktree": f"/tmp/seed/{prop} (detached worktree of /repo at {rev}, removed afterwards)",
+        "worktree": f"{ROOT}/{prop} (detached worktree of /repo at {rev}, removed afterwards)",
         "ran": ["demo.py on the clean tree -> exit 0", "git apply patch.diff", "demo.py -> exit %d" % v["demo_patched_rc"],
                 "full suite: /venv/bin/python -m pytest -q -p no:cacheprovider --timeout=900 -n 4 -> " + v["tests_summary"],
                 "git checkout -- ."],
